@@ -42,7 +42,9 @@ def main():
             with gzip.open(os.path.join(data_dir, fn), "rt", encoding="utf-8") as f:
                 d = json.load(f)
             for uname, ud in d.get("universes", {}).items():
-                if ud.get("checksum") != universes.get(uname).checksum():
+                from . import engine
+
+                if ud.get("checksum") != engine.get_universe(uname).checksum():
                     print(f"universe checksum mismatch: {fn} {uname}")
                     problems += 1
     print("universe checksums ok" if not problems else "universe checksums MISMATCH")
